@@ -10,7 +10,7 @@ LEVEL = 'exploration'
 DENY = set('''exit fg bg fid-kill fid-killall signal exec fexec source read tread get post getfile murex-package
 murex-update-exe-list open open-image openagent !openagent history event !event key-code pt autocomplete debug config !config
 method summary !summary test !test man-summary man-get-flags murex-docs read-named-pipe lockfile time cd runtime
-(murex named pipe) os which fanout'''.split('\n'))
+(murex named pipe) os which fanout while !while for alias !alias function !function private !private global !global set !set export !export unset'''.split('\n'))
 DENY = set(x for line in DENY for x in line.split()) | {'(murex named pipe)'}
 
 ARGS = {
@@ -87,7 +87,7 @@ def run(ck, replay=None):
                       'ok | error (exit != 0); `panic caught`, `Murex has crashed`, death of the process or a missed deadline are violations.  '
                       'non-trivial = at least one hostile argument or a method stdin; distinct = different programs.')
     ck.assumptions += ['this is specification-derived adversarial generation, not fuzzing of all programs',
-                       'deny-listed builtins (exit, kill/signal, exec, network, interactive readers, persistent hooks) are not run']
+                       'deny-listed builtins are not run in the table: exit, kill/signal, exec, network, interactive readers, persistent hooks, loops whose condition argument would never end (while/for), and definitions that would change the meaning of later rows in the same process (alias/function/private/global/set/export); definitions and loops are covered by the hand-written programs and by C04-C12/C39']
     mxh = common.build_mxh()
     # the builtin vocabulary comes from the real registry
     p = prog.run_programs(ck, [{'id': 1, 'src': 'runtime --builtins'}], shards=1, tag='bl')
